@@ -54,6 +54,16 @@ def cases(tier, seed):
             lens = gen.chrom_lens(table)
             case["prior_table"] = gen.table_from_edges([[0, ln] if ln < 2 else [0, 1, ln] for ln in lens])
         yield "co.coarsen", case
+    # coarse bin sizes that are NOT powers of two or round numbers (7 x 7 = 49, 7 x 14 = 98, 1 x 49, 3 x 35 = 105, 1 x 107, ...):
+    # the arithmetic that maps a start coordinate to its coarse bin must be exact for every width
+    for j, (lens, b, k) in enumerate([([105, 60], 7, 7), ([210, 98], 7, 14), ([150], 1, 49), ([230, 107], 1, 107), ([320], 3, 35),
+                                      ([400, 200], 23, 7), ([260], 1, 103), ([600], 11, 17)][:4 if tier == "quick" else 8]):
+        table = gen.binnify(lens, b)
+        mode = "symm" if j % 2 == 0 else "square"
+        px = gen.random_store(rng, len(table), mode, density=min(1.0, 60 / len(table) ** 2 * (2 if mode == "symm" else 1)), maxval=5)
+        for chunk in (7, 10 ** 6):
+            yield "co.coarsen", {"table": table, "mode": mode, "px": px, "cols": ["count"], "aggs": ["sum"], "k": k, "chunk": chunk,
+                                 "nproc": 1, "group": "/"}
     # the reader-writer lock protocol when coarsening with worker processes INTO THE FILE BEING READ (slow: real pools)
     for h in range(8 if tier == "quick" else 120):
         table = [gen.binnify([10, 6], 1), gen.binnify([14], 1), gen.binnify([7, 5, 4], 1)][h % 3]
